@@ -737,6 +737,9 @@ func worldOp(w *simWorld, actor int, op *Op) {
 		w.mu.Unlock()
 		w.probe("api_del")
 	case "delpeer":
+		// (an operator's teardown that races with a prefix-limit overrun decides which Cease the
+		// neighbour gets)
+		w.peers[op.Peer].forgoLimitNotification()
 		err := w.s.DeletePeer(context.Background(), &api.DeletePeerRequest{Address: w.peers[op.Peer].cfg.Addr})
 		w.logf("DeletePeer p%d: %v", op.Peer, err)
 		if err == nil {
@@ -776,6 +779,7 @@ func worldOp(w *simWorld, actor int, op *Op) {
 		w.logf("ResetPeer soft p%d %s: %v", op.Peer, op.Kind, err)
 		w.probe("soft_reset")
 	case "disable":
+		w.peers[op.Peer].forgoLimitNotification()
 		err := w.s.DisablePeer(context.Background(), &api.DisablePeerRequest{Address: w.peers[op.Peer].cfg.Addr})
 		w.logf("DisablePeer p%d: %v", op.Peer, err)
 	case "enable":
